@@ -18,6 +18,14 @@ Fixpoint resolve (next : nat) (os : list occ) : list rocc :=
   | (None, f, st) :: os' => (next, f, st) :: resolve (S next) os'
   end.
 
+(* the argument occurrences of a string, positions resolved (get_params never
+   raises: Proofs/CheckAndroidTotal.v) *)
+Definition args (s : str) : list rocc :=
+  match scan_params s with
+  | Ok os => resolve 1 os
+  | Raise _ => []
+  end.
+
 (* the conversion of the first occurrence that uses position k *)
 Definition first_conv (k : nat) (rs : list rocc) : option str :=
   match find (fun r => Nat.eqb k (fst (fst r))) rs with
